@@ -80,6 +80,9 @@ def mk_rl(dt, seq, via="from_array"):
         via = "concat2"                      # those two constructions go through small-value arithmetic / float64: not value-preserving here
     if via == "from_array" or n < 2:
         return RunLengthArray.from_array(a)
+    if via == "pickled":
+        import pickle
+        return pickle.loads(pickle.dumps(RunLengthArray.from_array(a)))
     if via in ("derived", "derived2"):             # a result of a ufunc on another array: it shares that array's boundary object
         src = RunLengthArray.from_array(a)
         _SOURCES.append((src, snap(src)))
